@@ -88,7 +88,7 @@ REQUIRED = (["tool:cnfgen", "tool:pbgen", "tool:cnfshuffle", "tool:kthlist2pebbl
              "file:wrong-format", "file:wrong-type", "file:unknown-extension",
              "stdin:cnf", "stdin:kthlist", "stdin:empty", "stdin:truncated", "stdin:garbage",
              "subprocess_reexecutions", "subprocess_agreements", "subprocess_class:SUCCESS", "subprocess_class:HELP",
-             "subprocess_class:ERROR", "outside_git_tree_runs"]
+             "subprocess_class:ERROR", "outside_git_tree_runs", "terminal_stdin_runs"]
             + ["reached:" + s for s in SUBS] + ["reached-T:" + t for t in TRANS])
 CASE_TIMEOUT = {"quick": 240, "thorough": 600}
 SHARDS = {"quick": 16, "thorough": 64}
@@ -1485,9 +1485,71 @@ def case_outside_git_tree(ctx):
         zoo.close()
 
 
+def case_terminal(ctx):
+    """Real processes whose standard input is a terminal (a pty) while standard output is a pipe, and the reverse:
+    the tools that read a formula / graph from <stdin> print a notice for the interactive user in that situation."""
+    import pty
+    import subprocess as sp
+    from .. import REPO
+    from ..refmodels import c06_dimacs
+    oc.selfcheck()
+    cnf = "p cnf 3 2\n1 -2 0\n2 3 0\n"
+    dag = "3\n1 : 0\n2 : 1 0\n3 : 1 2 0\n"
+    runs = [("cnfshuffle", [], cnf), ("cnfshuffle", ["-q"], cnf), ("cnfshuffle", ["-p", "-v", "-c"], cnf),
+            ("kthlist2pebbling", [], dag), ("kthlist2pebbling", ["-q"], dag), ("cnfgen", ["-q", "dimacs"], cnf),
+            ("cnfgen", ["-q", "peb", "kthlist", "-"], dag), ("cnfgen", ["-q", "php", "3", "2"], ""), ("pbgen", ["-q", "php", "3", "2"], "")]
+    for tool, argv, typed in runs:
+        code = ("import sys; sys.path.insert(0, %r); sys.argv[0] = %r; from cnfgen.clitools.%s import main; main()" % (REPO, tool, tool))
+        master, slave = pty.openpty()
+        try:
+            env = dict(os.environ)
+            env.pop("PYTHONPATH", None)
+            env["PYTHONPYCACHEPREFIX"] = os.path.join(tempfile.gettempdir(), "vmon-pycache-%d" % os.getuid())
+            env.pop("PYTHONDONTWRITEBYTECODE", None)
+            p = sp.Popen([sys.executable, "-c", code] + argv, stdin=slave, stdout=sp.PIPE, stderr=sp.PIPE, env=env, cwd=REPO)
+            os.close(slave)
+            slave = None
+            if typed:
+                os.write(master, typed.encode() + b"\x04")
+            try:
+                out, err = p.communicate(timeout=60)
+            except sp.TimeoutExpired:
+                p.kill()
+                p.communicate()
+                ctx.problems.append({"kind": "pty-run-timeout", "case": ctx.case, "traceback": "%s %r" % (tool, argv)})
+                continue
+        finally:
+            os.close(master)
+            if slave is not None:
+                os.close(slave)
+        out, err = out.decode("utf-8", "replace"), err.decode("utf-8", "replace")
+        ctx.count("terminal_stdin_runs")
+        label = "%s %s with a terminal as <stdin> and a pipe as <stdout>" % (tool, " ".join(argv))
+        if oc.TRACEBACK in err:
+            ctx.violation("%s:terminal-stdin:unhandled-exception" % tool, "%s: %r" % (label, err[-300:]))
+        elif p.returncode == 0:
+            ok = False
+            if tool == "pbgen":
+                ok = out.lstrip().startswith("* #variable=")
+            else:
+                try:
+                    nv, cls = c06_dimacs.read(out)
+                    ok = True
+                except Exception:          # noqa: BLE001
+                    ok = False
+            if not ok:
+                ctx.violation("%s:terminal-stdin:exit-0-without-complete-formula" % tool,
+                              "%s: exit status 0 but <stdout> holds %r" % (label, out[:120]), stderr=err[:300])
+        elif any(l.startswith("p cnf") for l in out.splitlines()):
+            ctx.violation("%s:terminal-stdin:formula-and-failure" % tool, "%s: status %d after writing a formula" % (label, p.returncode))
+        ctx.judged((tool, tuple(argv), "pty-stdin"), nontrivial=True, sample={"command": label, "status": p.returncode,
+                                                                              "stderr_first_line": err.split("\n")[0][:100]})
+
+
 def workload(tier, seed):
     quick = tier == "quick"
     step = 150
+    yield "terminal", {}
     yield "witnesses", {}          # first: the minimal command line of a mechanism becomes its replay
     n_grammar, n_mut, n_fil = (2700, 2400, 600) if quick else (33000, 33000, 6000)
     # indices depend on the seed so that another seed is another sample
